@@ -496,4 +496,419 @@ theorem decode_when_header_fails (s : St) (e : Err) (he : s.q.err = none) (hh : 
   simp only
   rw [hh]
   rfl
+
+
+/-- byte strings shorter than 4 GiB (`Decoder.cur` is a uint32) -/
+def Small (l : List Nat) : Prop := IsBytes l ∧ l.length < 4294967296
+
+def OpSmall : Op → Prop
+  | .reset _ b => Small b
+  | _ => True
+
+theorem Small.inv_fresh {o : Opts} {l : List Nat} (h : Small l) : Inv (St.fresh o l) :=
+  ⟨h.1, DefsOK.empty, (by decide : (0 : Nat) < 4294967296)⟩
+
+/-- the simulation relation between the decoder object and the specification's bookkeeping -/
+def Sim (a : Api) (p : Spec) : Prop :=
+  a.whole = p.whole ∧ Small p.whole ∧ Small p.cur ∧
+  match p.ph with
+  | .start => a.d = p.st ∧ ((a.n == 0) = p.atStart)
+  | .header => headerOnce p.st = .ok a.d ∧ a.n ≠ 0
+  | .fileId k lost => ∃ s1 evs1, headerOnce p.st = .ok s1 ∧ peekLoop (fuelOf s1) s1 = (a.d, evs1, .ok ()) ∧
+      evs1.length = k ∧ lost = decide (a.d.q.cur > a.d.q.hdr.dataSize) ∧ peekPast (fuelOf s1) s1 = false ∧ a.n ≠ 0
+  | .peekFailed e k => a.d.q.err = some e ∧ (stepDecode p.st).2.1 = .err e ∧ (stepDecode p.st).2.2.drop k = []
+  | .dead e => a.d.q.err = some e
+  | .blind => True
+
+/-- the outcome of a step agrees with what the specification demands (if it demands anything) -/
+def Meets (r : Api × Out × List Event) (d : Option (Out × List Event)) : Prop :=
+  ∀ x, d = some x → (r.2.1, r.2.2) = x
+
+theorem sim_reset (a : Api) (p : Spec) (o : Opts) (b : List Nat) (hb : Small b) :
+    Sim (step a (.reset o b)).1 (specStep p (.reset o b)).1 ∧ Meets (step a (.reset o b)) (specStep p (.reset o b)).2 := by
+  have hs : specStep p (.reset o b) = (Spec.fresh o b, some (.done, [])) := by
+    unfold specStep; cases p.ph <;> rfl
+  rw [hs]
+  refine ⟨⟨rfl, hb, hb, ?_⟩, ?_⟩
+  · show (_ ∧ _)
+    exact ⟨rfl, rfl⟩
+  · intro x hx; cases hx; rfl
+
+/-- a dead decoder answers as the specification's `dead` / `peekFailed` phases demand -/
+theorem sim_dead (a : Api) (p : Spec) (e : Err) (op : Op) (hop : ∀ o b, op ≠ .reset o b) (hph : p.ph = .dead e)
+    (hs : Sim a p) : Sim (step a op).1 (specStep p op).1 ∧ Meets (step a op) (specStep p op).2 := by
+  obtain ⟨hw, hsw, hsc, hm⟩ := hs
+  rw [hph] at hm
+  simp only at hm
+  have hst := step_sticky a e hm op hop
+  rw [hst.2]
+  have hspec : specStep p op = (p, match op with | .checkIntegrity => none | _ => some (stickyOut e op, [])) := by
+    unfold specStep
+    cases op with
+    | reset o b => exact absurd rfl (hop o b)
+    | decodeCtx c => cases c <;> simp [hph, stickyOut]
+    | _ => simp [hph, stickyOut]
+  rw [hspec]
+  refine ⟨⟨hw, hsw, hsc, by rw [hph]; exact hm⟩, ?_⟩
+  intro x hx
+  rw [hst.1]
+  cases op <;> simp_all
+
+
+theorem sim_peekFailed (a : Api) (p : Spec) (e : Err) (k : Nat) (op : Op) (hop : ∀ o b, op ≠ .reset o b)
+    (hph : p.ph = .peekFailed e k) (hs : Sim a p) :
+    Sim (step a op).1 (specStep p op).1 ∧ Meets (step a op) (specStep p op).2 := by
+  obtain ⟨hw, hsw, hsc, hm⟩ := hs
+  rw [hph] at hm
+  simp only at hm
+  obtain ⟨he, hd1, hd2⟩ := hm
+  have hst := step_sticky a e he op hop
+  rw [hst.2]
+  have hdead : Sim a { p with ph := .dead e } := ⟨hw, hsw, hsc, he⟩
+  have hsame : Sim a p := ⟨hw, hsw, hsc, by rw [hph]; exact ⟨he, hd1, hd2⟩⟩
+  have hdec : specDecode p k (some e) = ({ p with ph := .dead e }, some (.err e, [])) := by
+    unfold specDecode
+    rcases hsd : stepDecode p.st with ⟨s', out, evs⟩
+    rw [hsd] at hd1 hd2
+    simp only at hd1 hd2 ⊢
+    rw [hd1, hd2]
+  cases op with
+  | reset o b => exact absurd rfl (hop o b)
+  | decode =>
+    have : specStep p .decode = specDecode p k (some e) := by unfold specStep; simp [hph]
+    rw [this, hdec]
+    exact ⟨hdead, by intro x hx; cases hx; rw [hst.1]; rfl⟩
+  | decodeCtx c =>
+    cases c with
+    | false =>
+      have : specStep p (.decodeCtx false) = specDecode p k (some e) := by unfold specStep; simp [hph]
+      rw [this, hdec]
+      exact ⟨hdead, by intro x hx; cases hx; rw [hst.1]; rfl⟩
+    | true =>
+      have : specStep p (.decodeCtx true) = ({ p with ph := .dead e }, some (.err e, [])) := by unfold specStep; simp [hph]
+      rw [this]
+      exact ⟨hdead, by intro x hx; cases hx; rw [hst.1]; rfl⟩
+  | peekHeader =>
+    have : specStep p .peekHeader = (p, some (.err e, [])) := by unfold specStep; simp [hph]
+    rw [this]
+    exact ⟨hsame, by intro x hx; cases hx; rw [hst.1]; rfl⟩
+  | peekFileId =>
+    have : specStep p .peekFileId = (p, some (.err e, [])) := by unfold specStep; simp [hph]
+    rw [this]
+    exact ⟨hsame, by intro x hx; cases hx; rw [hst.1]; rfl⟩
+  | discard =>
+    have : specStep p .discard = ({ p with ph := .dead e }, some (.err e, [])) := by unfold specStep; simp [hph]
+    rw [this]
+    exact ⟨hdead, by intro x hx; cases hx; rw [hst.1]; rfl⟩
+  | next =>
+    have : specStep p .next = (p, some (.bool false, [])) := by unfold specStep; simp [hph]
+    rw [this]
+    exact ⟨hsame, by intro x hx; cases hx; rw [hst.1]; rfl⟩
+  | checkIntegrity =>
+    have : specStep p .checkIntegrity = (p, none) := by unfold specStep; simp [hph]
+    rw [this]
+    exact ⟨hsame, by intro x hx; cases hx⟩
+
+
+theorem Spec.st_o (p : Spec) : p.st.o = p.o := rfl
+theorem Spec.st_rest (p : Spec) : p.st.rest = p.cur := rfl
+theorem Spec.st_err (p : Spec) : p.st.q.err = none := rfl
+
+def Out.isDecodeKind : Out → Prop
+  | .fit _ | .err _ | .panic | .hang => True
+  | _ => False
+
+theorem fail_kind {α} (s : St) (r : Res α) (h : ∀ a, r ≠ .ok a) : (fail s r).2.isDecodeKind := by
+  cases r with
+  | ok a => exact absurd rfl (h a)
+  | err e => trivial
+  | panic => trivial
+  | hang => trivial
+
+theorem decodeTail_kind (l : LoopOut) : (decodeTail l).2.1.isDecodeKind := by
+  obtain ⟨s2, evs, r⟩ := l
+  unfold decodeTail
+  cases r with
+  | ok u =>
+    simp only
+    cases hc : decodeCRC s2 with
+    | ok s3 => trivial
+    | err e => trivial
+    | panic => trivial
+    | hang => trivial
+  | err e => trivial
+  | panic => trivial
+  | hang => trivial
+
+theorem stepDecode_kind (s : St) : (stepDecode s).2.1.isDecodeKind := by
+  unfold stepDecode
+  split
+  · trivial
+  · cases hr : headerOnce s with
+    | ok s1 => rw [decodeBody_eq s s1 hr]; exact decodeTail_kind _
+    | err e => unfold decodeBody; rw [hr]; trivial
+    | panic => unfold decodeBody; rw [hr]; trivial
+    | hang => unfold decodeBody; rw [hr]; trivial
+
+/-- after a `Decode` whose state and result are the fresh decoder's (`pre` listener calls made before by a peek) -/
+theorem sim_after_decode (a : Api) (p : Spec) (pre evs' : List Event) (s' : St) (out : Out)
+    (hw : a.whole = p.whole) (hsw : Small p.whole) (hsc : Small p.cur)
+    (hfresh : stepDecode p.st = (s', out, pre ++ evs'))
+    (hn : a.n ≠ 0 ∨ s'.rest.length < a.d.rest.length) :
+    Sim (a.advance s') (specDecode p pre.length none).1 ∧
+      Meets (a.advance s', out, evs') (specDecode p pre.length none).2 := by
+  have hg := stepDecode_good p.st hsc.inv_fresh
+  have hk := stepDecode_kind p.st
+  rw [hfresh] at hg hk
+  obtain ⟨hnp, hnh, hinv, herr⟩ := hg
+  simp only at hnp hnh hinv herr hk
+  unfold specDecode
+  rw [hfresh]
+  simp only [List.drop_left']
+  refine ⟨?_, by intro x hx; cases hx; rfl⟩
+  cases out with
+  | fit f =>
+    simp only
+    have hf := stepDecode_fit p.st s' f _ hsc.inv_fresh rfl hfresh
+    refine ⟨hw, hsw, ⟨hf.2.2.1, by have := hf.2.1; rw [Spec.st_rest] at this; have := hsc.2; show s'.rest.length < _; omega⟩, ?_⟩
+    show (_ ∧ _)
+    refine ⟨hf.1, ?_⟩
+    show ((a.n + (a.d.rest.length - s'.rest.length)) == 0) = false
+    rcases hn with hn | hn
+    · simp; omega
+    · simp; omega
+  | err e => exact ⟨hw, hsw, hsc, herr e rfl⟩
+  | panic => exact absurd rfl hnp
+  | hang => exact absurd rfl hnh
+  | header h => exact hk.elim
+  | fileId f => exact hk.elim
+  | done => exact hk.elim
+  | bool b => exact hk.elim
+  | integrity n e => exact hk.elim
+
+
+theorem le32_lt (b : List Nat) (h : IsBytes b) : le32 b < 4294967296 := by
+  unfold le32
+  have g : ∀ i, b.getD i 0 < 256 := by
+    intro i
+    rw [List.getD_eq_getElem?_getD]
+    cases hb : b[i]? with
+    | none => simp
+    | some x => exact h x (List.mem_of_getElem? hb)
+  have := g 0; have := g 1; have := g 2; have := g 3
+  omega
+
+/-- the header of a new decoder on `l`: what a successful `decodeFileHeaderOnce` leaves -/
+theorem header_fresh (o : Opts) (l : List Nat) (s1 : St) (hs : IsBytes l) (h : headerOnce (St.fresh o l) = .ok s1) :
+    s1.q.cur = 0 ∧ s1.q.hdr.dataSize < 4294967296 ∧ s1.rest.length < l.length ∧ s1.o = o ∧ s1.look = {} ∧
+      s1.q.fileId = none := by
+  unfold headerOnce at h
+  simp only [St.fresh, Bool.false_eq_true, if_false] at h
+  have hi : Inv (St.fresh o l) := ⟨hs, DefsOK.empty, (by decide : (0 : Nat) < 4294967296)⟩
+  have hh := decodeFileHeader_sat (St.fresh o l) hi
+  simp only [St.fresh] at hh
+  cases hr : decodeFileHeader { o := o, rest := l } with
+  | ok s' =>
+    rw [hr] at h hh
+    simp only [Res.ok.injEq] at h
+    subst h
+    obtain ⟨hb, hd, h1, h2, hok⟩ := hh
+    have hbb : IsBytes hb := (IsBytes.append.mp (h1 ▸ hs)).1
+    refine ⟨?_, ?_, ?_, ?_, ?_, ?_⟩
+    · show s'.q.cur = 0; rw [h2]
+    · show s'.q.hdr.dataSize < _
+      rw [h2]; show hd.dataSize < _
+      rw [hok.dataSize.1]
+      exact le32_lt _ (fun x hx => hbb x (List.mem_of_mem_drop hx))
+    · show s'.rest.length < l.length
+      rw [h1, List.length_append, hok.len]
+      rcases hok.size with h | h <;> omega
+    · show s'.o = o; rw [h2]
+    · show s'.look = {}; rw [h2]
+    · show s'.q.fileId = none; rw [h2]
+  | err e => rw [hr] at h; cases h
+  | panic => rw [hr] at h; cases h
+  | hang => rw [hr] at h; cases h
+
+
+theorem discardTail_events (chk : Bool) (s : St) : (discardTail chk s).2.2 = [] := by
+  unfold discardTail
+  simp only
+  cases discardMessages (fuelOf s) s with
+  | ok s2 =>
+    simp only
+    cases readN 2 s2 with
+    | ok p => rfl
+    | err e => rfl
+    | panic => rfl
+    | hang => rfl
+  | err e => rfl
+  | panic => rfl
+  | hang => rfl
+
+theorem stepDiscard_header_err (s : St) (he : s.q.err = none) (e : Err) (h : headerOnce (noChk s) = .err e) :
+    (stepDiscard s).2 = (.err e, []) ∧ (stepDiscard s).1.q.err = some e := by
+  have : stepDiscard s = ({ (failHeader (noChk s) (Res.err e : Res St)).1 with
+      o := { (failHeader (noChk s) (Res.err e : Res St)).1.o with chk := s.o.chk } }, .err e, []) := by
+    unfold stepDiscard
+    rw [he]
+    simp only
+    show (match headerOnce (noChk s) with | .ok s1 => _ | r => _) = _
+    rw [h]
+    rfl
+  rw [this]
+  exact ⟨rfl, rfl⟩
+
+theorem noChk_fresh (o : Opts) (l : List Nat) : noChk (St.fresh o l) = St.fresh { o with chk := false } l := rfl
+
+/-- `Discard` on a new decoder: either the header fails, or the stream ends early, or the decoder is as new behind the sequence -/
+theorem discard_fresh (o : Opts) (l : List Nat) (hs : IsBytes l) :
+    (∃ e s', stepDiscard (St.fresh o l) = (s', .err e, []) ∧ s'.q.err = some e) ∨
+    (∃ s1 : St, headerOnce (St.fresh { o with chk := false } l) = .ok s1 ∧
+      stepDiscard (St.fresh o l) = (St.fresh o (s1.rest.drop (s1.q.hdr.dataSize + 2)), .done, []) ∧
+      s1.q.hdr.dataSize + 2 ≤ s1.rest.length) := by
+  cases hh : headerOnce (St.fresh { o with chk := false } l) with
+  | ok s1 =>
+    have hf := header_fresh _ l s1 hs hh
+    have heq := stepDiscard_eq (St.fresh o l) s1 rfl (by rw [noChk_fresh]; exact hh)
+    have hsp := discardTail_spec o.chk s1 (by rw [hf.1]; omega) hf.2.1
+    simp only [hf.1, Nat.sub_zero] at hsp
+    by_cases hlen : s1.q.hdr.dataSize + 2 ≤ s1.rest.length
+    · right
+      refine ⟨s1, rfl, ?_, hlen⟩
+      rw [heq]
+      show discardTail o.chk s1 = _
+      rw [hsp.1 hlen, hf.2.2.2.1]
+      simp only [St.fresh, Opts.restore_chk]
+    · left
+      have := hsp.2 (by omega)
+      refine ⟨.eof, (discardTail o.chk s1).1, ?_, this.2⟩
+      rw [heq]
+      show discardTail o.chk s1 = _
+      have h1 := this.1
+      have h2 := discardTail_events o.chk s1
+      rcases hd : discardTail o.chk s1 with ⟨x, y, z⟩
+      rw [hd] at h1 h2
+      simp only at h1 h2
+      rw [h1, h2]
+  | err e =>
+    left
+    have hsd := stepDiscard_header_err (St.fresh o l) rfl e (by rw [noChk_fresh]; exact hh)
+    rcases hd : stepDiscard (St.fresh o l) with ⟨x, y, z⟩
+    rw [hd] at hsd
+    simp only [Prod.mk.injEq] at hsd
+    exact ⟨e, x, by rw [hsd.1.1, hsd.1.2], hsd.2⟩
+  | panic =>
+    have := headerOnce_sat (St.fresh { o with chk := false } l) ⟨hs, DefsOK.empty, (by decide : (0 : Nat) < 4294967296)⟩ rfl
+    rw [hh] at this; exact this.elim
+  | hang =>
+    have := headerOnce_sat (St.fresh { o with chk := false } l) ⟨hs, DefsOK.empty, (by decide : (0 : Nat) < 4294967296)⟩ rfl
+    rw [hh] at this; exact this.elim
+
+
+/-- `Discard` from inside the data window (after peeks) ends where a new decoder's `Discard` of the sequence ends -/
+theorem discard_mid (o : Opts) (l : List Nat) (hs : IsBytes l) (s1 s : St) (c : List Nat)
+    (hh : headerOnce (St.fresh o l) = .ok s1) (hr : s1.rest = c ++ s.rest) (hcur : s.q.cur = c.length)
+    (hle : s.q.cur ≤ s.q.hdr.dataSize) (hhdr : s.q.hdr = s1.q.hdr) (ho : s.o = o) (he : s.q.err = none)
+    (hd : s.q.hdrDone = true) :
+    (stepDiscard s).2 = (stepDiscard (St.fresh o l)).2 ∧
+      ((stepDiscard s).2.1 = .done → (stepDiscard s).1 = (stepDiscard (St.fresh o l)).1) ∧
+      (∀ e, (stepDiscard s).2.1 = .err e → (stepDiscard s).1.q.err = some e) := by
+  have hf := header_fresh o l s1 hs hh
+  have e1 := stepDiscard_eq (St.fresh o l) (noChk s1) rfl (headerOnce_noChk _ _ hh)
+  have e2 := stepDiscard_eq s (noChk s) he (headerOnce_done (noChk s) hd he)
+  rw [e1, e2, ho]
+  show (discardTail o.chk (noChk s)).2 = (discardTail o.chk (noChk s1)).2 ∧
+    ((discardTail o.chk (noChk s)).2.1 = .done → (discardTail o.chk (noChk s)).1 = (discardTail o.chk (noChk s1)).1) ∧
+    (∀ e, (discardTail o.chk (noChk s)).2.1 = .err e → (discardTail o.chk (noChk s)).1.q.err = some e)
+  have sp1 := discardTail_spec o.chk (noChk s1) (by show s1.q.cur ≤ _; rw [hf.1]; omega) hf.2.1
+  have sp2 := discardTail_spec o.chk (noChk s) hle (by show s.q.hdr.dataSize < _; rw [hhdr]; exact hf.2.1)
+  have q1 : (noChk s1).q = s1.q := rfl
+  have q2 : (noChk s).q = s.q := rfl
+  have r1 : (noChk s1).rest = s1.rest := rfl
+  have r2 : (noChk s).rest = s.rest := rfl
+  have o1 : (noChk s1).o = { o with chk := false } := by rw [noChk_o, hf.2.2.2.1]
+  have o2 : (noChk s).o = { o with chk := false } := by rw [noChk_o, ho]
+  simp only [q1, q2, r1, r2, hf.1, Nat.sub_zero, o1, o2] at sp1 sp2
+  have hlen : s1.rest.length = c.length + s.rest.length := by rw [hr, List.length_append]
+  have ev1 := discardTail_events o.chk (noChk s1)
+  have ev2 := discardTail_events o.chk (noChk s)
+  by_cases hen : s1.q.hdr.dataSize + 2 ≤ s1.rest.length
+  · have h1 := sp1.1 hen
+    have hcl : s.q.hdr.dataSize - s.q.cur + 2 ≤ s.rest.length := by rw [hhdr] at hle ⊢; omega
+    have h2 := sp2.1 hcl
+    rw [h1, h2]
+    have hdrop : List.drop (s.q.hdr.dataSize - s.q.cur + 2) s.rest = List.drop (s1.q.hdr.dataSize + 2) s1.rest := by
+      rw [hr, List.drop_append, hhdr, hcur]
+      have : List.drop (s1.q.hdr.dataSize + 2) c = [] := List.drop_eq_nil_of_le (by rw [← hcur]; rw [hhdr] at hle; omega)
+      rw [this, List.nil_append]
+      congr 1
+      rw [hhdr, hcur] at hle
+      omega
+    rw [hdrop]
+    exact ⟨rfl, fun _ => rfl, by intro e h; cases h⟩
+  · have h1 := sp1.2 (by omega)
+    have hcl : s.rest.length < s.q.hdr.dataSize - s.q.cur + 2 := by rw [hhdr] at hle ⊢; omega
+    have h2 := sp2.2 hcl
+    refine ⟨?_, ?_, ?_⟩
+    · rcases hd1 : discardTail o.chk (noChk s1) with ⟨x1, y1, z1⟩
+      rcases hd2 : discardTail o.chk (noChk s) with ⟨x2, y2, z2⟩
+      rw [hd1] at h1 ev1; rw [hd2] at h2 ev2
+      simp only at h1 h2 ev1 ev2
+      rw [h1.1, h2.1, ev1, ev2]
+    · intro hdone; rw [h2.1] at hdone; cases hdone
+    · intro e he'; rw [h2.1] at he'; cases he'; exact h2.2
+
+
+theorem sim_after_discard (a : Api) (p : Spec) (s' : St) (out : Out)
+    (hw : a.whole = p.whole) (hsw : Small p.whole) (hsc : Small p.cur)
+    (hout : (stepDiscard p.st).2 = (out, []))
+    (hdone : out = .done → s' = (stepDiscard p.st).1)
+    (herr : ∀ e, out = .err e → s'.q.err = some e)
+    (hn : a.n ≠ 0 ∨ a.d.rest = p.cur) :
+    Sim (a.advance s') (specDiscard p).1 ∧ Meets (a.advance s', out, []) (specDiscard p).2 := by
+  unfold specDiscard
+  rcases hsd : stepDiscard p.st with ⟨sF, outF, evF⟩
+  rw [hsd] at hout hdone
+  simp only [Prod.mk.injEq] at hout
+  obtain ⟨ho, he⟩ := hout
+  subst ho he
+  simp only
+  refine ⟨?_, by intro x hx; cases hx; rfl⟩
+  rcases discard_fresh p.o p.cur hsc.1 with ⟨e, sE, h1, h2⟩ | ⟨s1, hh, h1, hlen⟩
+  · have : stepDiscard p.st = (sE, .err e, []) := h1
+    rw [hsd] at this
+    simp only [Prod.mk.injEq] at this
+    obtain ⟨_, ho, _⟩ := this
+    subst ho
+    exact ⟨hw, hsw, hsc, herr e rfl⟩
+  · have : stepDiscard p.st = (St.fresh p.o (s1.rest.drop (s1.q.hdr.dataSize + 2)), .done, []) := h1
+    rw [hsd] at this
+    simp only [Prod.mk.injEq] at this
+    obtain ⟨hs, ho, _⟩ := this
+    subst ho
+    have hs' := hdone rfl
+    subst hs'
+    have hf := header_fresh _ p.cur s1 hsc.1 hh
+    have hi1 : IsBytes s1.rest := by
+      have := headerOnce_sat (St.fresh { p.o with chk := false } p.cur) hsc.inv_fresh rfl
+      rw [hh] at this
+      exact this.1.1
+    have hlt : (List.drop (s1.q.hdr.dataSize + 2) s1.rest).length < p.cur.length := by
+      rw [List.length_drop]; have := hf.2.2.1; omega
+    show Sim _ (p.advance s'.rest)
+    have hsr : s'.rest = List.drop (s1.q.hdr.dataSize + 2) s1.rest := by rw [hs]; rfl
+    refine ⟨hw, hsw, ⟨?_, ?_⟩, ?_⟩
+    · show IsBytes s'.rest
+      rw [hsr]; exact fun x hx => hi1 x (List.mem_of_mem_drop hx)
+    · show s'.rest.length < _
+      rw [hsr]; have := hsc.2; omega
+    show (_ ∧ _)
+    refine ⟨?_, ?_⟩
+    · show s' = St.fresh p.o s'.rest
+      rw [hsr]; exact hs
+    show ((a.n + (a.d.rest.length - s'.rest.length)) == 0) = false
+    rcases hn with hn | hn
+    · simp; omega
+    · rw [hn, hsr]; simp; omega
 end Fit.DecApi
